@@ -45,8 +45,10 @@ FUNCTIONS = [
     "nessai.utils.sampling.NDimensionalTruncatedGaussian.sample",
 ]
 BOUNDS = {
-    "quick": dict(pool_size_N="1..2", drawsize=2, population_loop_iterations="<=2", dimensions=1, modes=["accumulate_weights off; on for N=1", "truncate_log_q off"]),
-    "thorough": dict(pool_size_N="1..3", drawsize=2, population_loop_iterations="<=3 for N=1, <=2 for N=2..3", dimensions=1, modes=["accumulate_weights off; on for N=1", "truncate_log_q off"]),
+    "quick": dict(pool_size_N="1..2", drawsize=2, population_loop_iterations="<=2", dimensions=1, modes=["accumulate_weights off; on for N=1", "truncate_log_q off"],
+                  latent="radial samplers in d = 2, 3, one point, symbolic radius and fuzz; two successive populations with different radii; augmented proposal N=1; in_bounds with 2 parameters"),
+    "thorough": dict(pool_size_N="1..3", drawsize=2, population_loop_iterations="<=3 for N=1, <=2 for N=2..3", dimensions=1, modes=["accumulate_weights off; on for N=1", "truncate_log_q off"],
+                     latent="radial samplers in d = 1, 2, 3; otherwise as in the quick tier"),
 }
 SCOPE = "Structural clauses only: bounds, prior / likelihood bookkeeping, pool size, single hand-out, likelihood never called outside the prior support."
 ASSUMPTIONS = [
